@@ -13,6 +13,7 @@ import (
 	"fmt"
 	"os"
 	"strconv"
+	"strings"
 	"sync"
 	"sync/atomic"
 	"time"
@@ -136,6 +137,14 @@ func heartbeatScenario(role string, n int, pattern string) {
 		verdict("C08", mode, "logon", "fail: logon exchange did not complete", tags...)
 		return
 	}
+	if strings.HasPrefix(pattern, "relogon-") { // the same pattern on the second logon of one session
+		pattern = strings.TrimPrefix(pattern, "relogon-")
+		time.Sleep(300 * time.Millisecond)
+		if !l.Relogon(n) {
+			verdict("C08", mode, "relogon", "fail: Logout exchange and second Logon did not complete", tags...)
+			return
+		}
+	}
 	N := time.Duration(n) * time.Second
 	stop := make(chan struct{})
 	// keep the peer alive so that the session is not disconnected: a heartbeat every 0.7 N
@@ -228,6 +237,14 @@ func silenceScenario(role string, n int, pattern string) {
 	if !l.Logon(n) {
 		verdict("C09", mode, "logon", "fail: logon exchange did not complete", tags...)
 		return
+	}
+	if strings.HasPrefix(pattern, "relogon-") { // the same pattern on the second logon of one session
+		pattern = strings.TrimPrefix(pattern, "relogon-")
+		time.Sleep(300 * time.Millisecond)
+		if !l.Relogon(n) {
+			verdict("C09", mode, "relogon", "fail: Logout exchange and second Logon did not complete", tags...)
+			return
+		}
 	}
 	logonAt := time.Now()      // the timers start with the logon: their ticks are counted from here
 	loggedUntil := time.Time{} // set when the session stops being logged on (disconnect)
@@ -785,6 +802,12 @@ func main() {
 			for _, p := range []string{"total", "answer-heartbeat", "answer-other", "answer-testrequest", "answer-seqreset", "answer-resend", "answer-logout", "steady-1.0", "steady-0.9", "steady-0.5", "steady-mixed"} {
 				p := p
 				run(func() { silenceScenario(role, n, p) })
+			}
+			if role == "A" {
+				run(func() { heartbeatScenario(role, n, "relogon-testrequest-mid") })
+				run(func() { heartbeatScenario(role, n, "relogon-idle") })
+				run(func() { silenceScenario(role, n, "relogon-steady-0.9") })
+				run(func() { silenceScenario(role, n, "relogon-total") })
 			}
 		}
 	}
